@@ -130,6 +130,14 @@ def handle (toks : List String) : Option String :=
         if s.any (fun p => !c.contains p) then pure "err not_present" else
         let o := newOrder c s
         pure ("ok " ++ showNats o ++ " " ++ showNats (applyOrder c o))).orElse fun _ => some "err parse"
+    | ["reordernames", older, no] => (do
+        let o ← parseNatList older; let n ← parseNatList no
+        if n.any (fun k => k = 0 || k > o.length) || n.length ≠ o.length then pure "err neworder" else
+        pure ("ok " ++ showNats (reorderNames o n))).orElse fun _ => some "err parse"
+    | ["removenames", older, k] => (do
+        let o ← parseNatList older; let r ← k.toNat?
+        if r = 0 || r > o.length then pure "err index" else
+        pure ("ok " ++ showNats (removeNames o r))).orElse fun _ => some "err parse"
     | ["export", nref, gt, t, nu, m] => (do
         let n ← parseRat nref; let g ← parseRat gt; let a ← parseRat t; let b ← parseRat nu; let c ← parseRat m
         if n = 0 then pure "err zero_Nref" else
